@@ -5,11 +5,12 @@ import os
 
 import core
 from core import LeanDriver, err_kind, canon
-from gen import validators
+from gen import validators, entrypoints
 import lib_c16 as L
+import lib_c16ep as EP
 
 ID = "C16"
-GENERATORS = [validators.generate]
+GENERATORS = [validators.generate, entrypoints.generate]
 LEAN_MODULES = ["FimVerif.Proofs.C16"]
 P = "FimVerif.C16."
 THEOREMS = [P + t for t in (
@@ -18,7 +19,13 @@ THEOREMS = [P + t for t in (
     "reencode_accepted", "label_regexes_avoid_newline", "stored_label_no_newline",
     "tags_sound", "tags_complete", "tag_no_newline", "name_accept_iff", "name_stored_is_input", "name_regexes_avoid_newline",
     "boot_accept_iff", "json_accept_iff", "int_of_digits", "range_holds_iff", "vlan_domain", "tag_domain", "node_name_domain",
-    "dollar_admits_trailing_newline", "asn_domain", "accept_complete_many")]
+    "dollar_admits_trailing_newline", "asn_domain", "accept_complete_many",
+    "stored_list_all_strings", "wrong_type_rejected", "unknown_field_rejected", "keys_invariant",
+    "every_store_guarded", "every_entry_point_validated", "every_entry_point_probed", "modelled_writers_guarded",
+    "elem_name_invariant", "elem_step_exact", "elem_handle_follows_store",
+    "create_accept_iff", "derived_classes_known", "derived_service_name_iff", "derived_service_suffixes_ok",
+    "component_name_rejected_counterexample", "component_name_accepted_partial", "facility_name_iff",
+    "facility_name_rejected_counterexample")]
 TRUSTED_BASE = [
     "gen/validators.graph_writers: AST inventory of fim/user methods that write validated properties into the graph; a dict write must come from "
     "*_sliver_to_graph_properties_dict, a raw write must be preceded by the validating property setter (theorem raw_writers_guarded)",
@@ -35,7 +42,6 @@ ENTRY_POINTS_NOTE = ("entry points that take a name/labels/tags/... are pinned i
                      "add_interface/add_child_interface/add_port_mirror_service construct through <Element>.__init__ -> sliver.set_name and are not driven separately")
 ASSUMPTIONS = [
     "values are str / list / None / other JSON-representable objects; attribute assignment on a Labels object that bypasses every setter is outside the quantifier",
-    "label field names are the instance fields or names that are not attributes of the class",
     "digit strings are shorter than sys.get_int_max_str_digits() (4300)",
     "the documented domain of a field is L(its regex) ∩ its range (Unicode decimal digits count as digits, as in [\\d] and int()); for bdf the separator before the function is a literal dot; for numa an integer literal -?digits in -1..7",
 ]
@@ -104,6 +110,9 @@ class Impl:
             self._etopo = t
         return self._elems
 
+    def raw_props(self, el):
+        return dict(el.topo.graph_model.get_node_properties(node_id=el.node_id)[1])
+
     def raw_name(self, el):
         _, props = el.topo.graph_model.get_node_properties(node_id=el.node_id)
         return props.get("Name")
@@ -128,6 +137,43 @@ class Impl:
             return ["err", kind_of(e)]
         finally:
             self.restore_name(el, orig)
+
+    def create(self, own, knd, variant, parent, v):
+        """an entry point that derives further names from the one it is given"""
+        fu = self.fu
+        t = fu.ExperimentTopology()
+        try:
+            if knd == "component":
+                n = t.add_node(name=parent, site="S1")
+                el = n.add_component(name=v, model_type=getattr(fu.ComponentModelType, variant))
+            elif knd == "facility":
+                el = t.add_facility(name=v, site="S1")
+            else:
+                el = t.add_switch(name=v, site="S1", nports=1)
+            return ["ok", self.raw_name(el)]
+        except Exception as e:
+            return ["err", kind_of(e)]
+        finally:
+            try:
+                t.graph_model.delete_graph()
+            except Exception:
+                pass
+
+    def ehist(self, cls, init, ops):
+        """a history of name rewrites on one element: final name in the graph and the name the element object answers with"""
+        c = EP.C(self)
+        try:
+            knd = {v: k for k, v in EP.ELEMS.items()}[cls]
+            el = c.elem(knd)
+            el.rename(init)
+            for entry, v in ops:
+                try:
+                    self.name_entries(el)[entry](self.val(v))
+                except Exception:
+                    pass
+            return ["ok", [self.raw_name(el), el.name]]
+        finally:
+            c.close()
 
     # wire value -> python value
     @staticmethod
@@ -258,6 +304,10 @@ def impl_eval(req):
         return I.name(req[1], req[2])
     if op == "ename":
         return I.ename(req[1], req[2], req[3])
+    if op == "create":
+        return I.create(req[1], req[2], req[3], req[4], req[5])
+    if op == "ehist":
+        return I.ehist(req[1], req[2], req[3])
     if op == "boot":
         return I.boot(req[1])
     if op == "jsonstr":
@@ -339,6 +389,10 @@ def label_cases(rng, per_field, validated_only=False):
             for p in PATHS:
                 reqs.append(["labels", p, [], [[f, v]]])
     for p in PATHS:
+        for key in ("to_json", "VALIDATORS", "LAMBDA_VALIDATORS", "update", "_set_fields", "__doc__", "list_fields"):
+            reqs.append(["labels", p, [], [[key, rng.choice(["x", ["x"]])]]])
+            reqs.append(["labels", p, [["vlan", "7"]], [[key, "x"], ["vlan", "99999"]]])
+            reqs.append(["labels", p, [], [[key, ["x"]], ["mac", "00:11:22:33:44:55"]]])
         reqs.append(["labels", p, [], [["nosuchfield", "1"]]])
         reqs.append(["labels", p, [], [["nosuchfield", None]]])
         reqs.append(["labels", p, [], [["nosuchfield", OTHER], ["vlan", "5"]]])
@@ -373,6 +427,38 @@ def name_cases(rng, n):
     return reqs
 
 
+def create_cases(rng, n):
+    """entry points that derive names: component models with interfaces (and two without), facility, switch; parents and
+    names at the length boundaries and with the characters the classes disagree on"""
+    import fim.user as fu
+    models = [m.name for m in fu.ComponentModelType]
+    reqs = []
+    parents = ["n1", "ab", "p" * 40, "node-1.x", "q" * 200]
+    for _ in range(n):
+        variant = rng.choice(models)
+        parent = rng.choice(parents)
+        room = 255 - len(parent) - 7
+        s = rng.choice(["a b", "ab", "a", "nic1", "a_b", "a.b", "a+b", "n" * room, "n" * (room + 1), "n" * (room + 2), "n" * (room - 1), "n" * 252,
+                        "n" * 253, "n" * 255, "n" * 256, "é" * 5, "a\n", "x" * max(2, room) + " "] + L.name_candidates("ComponentSliver", rng, 30)[23:])
+        reqs.append(["create", "ComponentSliver", "component", variant, parent, s])
+    for s in ["ab", "a", "n" * 250, "n" * 251, "n" * 252, "n" * 253, "n" * 254, "n" * 255, "n" * 256, "a b", "a_b", "fac-1.x", "é" * 251, "é" * 252] + \
+            L.name_candidates("NodeSliver", rng, 23 + n // 4)[23:]:
+        reqs.append(["create", "NodeSliver", "facility", "", "", s])
+        reqs.append(["create", "NodeSliver", "switch", "", "", s])
+    return reqs
+
+
+def hist_cases(rng, n):
+    reqs = []
+    entries = ["rename", "assign", "set_property", "set_properties"]
+    for _ in range(n):
+        cls = rng.choice(sorted(EP.ELEMS.values()))
+        cands = L.name_candidates(cls, rng, 40)
+        ops = [[rng.choice(entries), rng.choice(cands)] for _ in range(rng.randrange(1, 7))]
+        reqs.append(["ehist", cls, "init-1", ops])
+    return reqs
+
+
 def size_cases(rng):
     reqs = []
     for n in [0, 1, 2, 1022, 1023, 1024, 1025, 2000]:
@@ -398,7 +484,8 @@ def size_cases(rng):
 
 def all_cases(ctx, tag, per_field, names, tags):
     rng = ctx.sub_rng(tag)
-    return corpus_cases() + label_cases(rng, per_field) + tag_cases(rng, tags) + name_cases(rng, names) + size_cases(rng)
+    return (corpus_cases() + label_cases(rng, per_field) + tag_cases(rng, tags) + name_cases(rng, names) + size_cases(rng)
+            + create_cases(rng, names) + hist_cases(rng, names // 2))
 
 
 def corpus_cases():
@@ -478,7 +565,7 @@ def check_label(I, f, s, res):
     dom = L.LABEL_DOMAIN.get(f)
     g = good_example(f)
     Labels = I.cl.Labels
-    for form, v in (("scalar", s), ("list", [g, s])):
+    for form, v in (("scalar", s), ("list", [g, s]), ("list-first", [s, g]), ("list-only", [s]), ("list-last", [g, g, s])):
         inside = True if dom is None else dom(s)
         for pname, fn in label_paths(I, f, v).items():
             ok, lab, ek = _accepts(fn)
@@ -501,6 +588,84 @@ def check_label(I, f, s, res):
                 if not ok2 or lab2 is None or lab2.__dict__ != lab.__dict__:
                     res.violation("C16:labels.%s:reencode" % f, "an accepted label is rejected or changed by to_json/from_json", case,
                                   expected="same object", observed=ek2 or str(lab2))
+
+
+
+# ---------------------------------------------------------------- values of the wrong type, keys that are not fields
+
+class _S(str):
+    pass
+
+
+WRONG_TYPED = {"int": 100, "int-big": 5000, "float": 1.5, "bool": True, "bytes": b"100", "bytearray": bytearray(b"100"), "tuple": ("100",),
+               "set": {"100"}, "dict": {"a": "1"}, "[int]": [100], "[bytes]": [b"100"], "[tuple]": [("100",)], "[str,int]": ["100", 100],
+               "[int,str]": [100, "100"], "[None]": [None], "[[str]]": [["100"]], "[dict]": [{"a": 1}], "[set]": [{"1"}], "[float]": [1.5],
+               "[bool]": [True], "[str,bytes]": ["a", b"a"], "strsub": _S("100"), "[strsub]": [_S("100")]}
+
+
+def _is_strs(v):
+    return isinstance(v, str) or (isinstance(v, list) and all(isinstance(x, str) for x in v))
+
+
+def check_label_types(I, res, fields):
+    """the value arrives as something that is not a str / list of str: it must not be stored (and what is stored must encode)"""
+    Labels = I.cl.Labels
+    for f in fields:
+        dom = L.LABEL_DOMAIN.get(f)
+        for nm, v in WRONG_TYPED.items():
+            for pname, fn in label_paths(I, f, v).items():
+                as_seen = v
+                if pname in ("json", "decode"):
+                    if not dumps_facts(v)[0]:
+                        continue
+                    as_seen = json.loads(json.dumps(v))          # what the decoder is handed
+                ok, lab, ek = _accepts(fn)
+                res.evaluations += 1
+                res.count("types:%s:%s" % (pname, "accept" if ok else "reject"))
+                case = {"kind": "ltype", "field": f, "value": nm, "path": pname}
+                if not ok or lab is None:
+                    continue
+                got = getattr(lab, f, None)
+                if got is None:
+                    continue
+                inside = _is_strs(as_seen) and (dom is None or all(dom(x) for x in ([as_seen] if isinstance(as_seen, str) else as_seen)))
+                if not inside:
+                    res.violation("C16:labels.%s:%s:non-string-stored" % (f, pname), "a label value that is not a str / list of str is stored",
+                                  case, expected="rejected", observed=repr(got)[:80])
+                ok2, _, ek2 = _accepts(lambda: Labels.from_json(lab.to_json()))
+                if not ok2:
+                    res.violation("C16:labels.%s:%s:accepted-but-cannot-be-encoded" % (f, pname),
+                                  "an accepted label value cannot be encoded / decoded again", case, observed=ek2)
+
+
+def check_label_keys(I, res):
+    """keyword names that are attributes of the class but not label fields (to_json, VALIDATORS, update, ...)"""
+    Labels = I.cl.Labels
+    fields = set(Labels().__dict__)
+    keys = [k for k in dir(Labels) if k not in fields and not (k.startswith("__") and k not in ("__doc__", "__module__", "__dict__", "__class__"))]
+    for key in keys + ["nosuchfield", "Vlan", "vlan "]:
+        for v in ("x", ["x"]):
+            for pname, fn in label_paths(I, key, v).items():
+                ok, lab, ek = _accepts(fn)
+                res.evaluations += 1
+                res.count("keys:%s:%s" % (pname, "accept" if ok else "reject"))
+                case = {"kind": "lkey", "key": key, "list": isinstance(v, list), "path": pname}
+                if ok and lab is not None and key in lab.__dict__:
+                    res.violation("C16:labels:%s:non-field-key-stored" % pname, "a keyword that is not a label field is stored on the Labels object",
+                                  case, expected="rejected (or skipped when decoding)", observed="%s=%r" % (key, lab.__dict__[key]))
+                if ok and lab is not None:
+                    ok2, _, ek2 = _accepts(lambda: Labels.from_json(lab.to_json()))
+                    if not ok2:
+                        res.violation("C16:labels:%s:non-field-key-breaks-encoding" % pname, "after a non-field keyword the object cannot be encoded", case,
+                                      observed=ek2)
+        # shadowing a validator table must not switch the validator off for the next field
+        for mk in (lambda: Labels(**{key: "x", "vlan": "99999"}), lambda: Labels(**{key: ["x"], "mac": "zz"}),
+                   lambda: Labels.update(Labels(local_name="p"), **{key: "x", "vlan": "99999"})):
+            ok, lab, ek = _accepts(mk)
+            res.evaluations += 1
+            if ok and lab is not None and (lab.vlan == "99999" or lab.mac == "zz"):
+                res.violation("C16:labels:non-field-key-disables-validator", "a non-field keyword switched off the validation of the next field",
+                              {"kind": "lkey", "key": key, "list": False, "path": "ctor"}, observed=lab.to_json())
 
 
 def tag_paths(I, s):
@@ -539,6 +704,14 @@ def check_tag(I, s, res):
                 res.violation("C16:tags:reencode", "accepted tags are rejected or changed by to_json/from_json", case, observed=ek2)
 
 
+def _drop(t):
+    """scratch topologies share one NetworkX store: remove them, or every later query gets slower"""
+    try:
+        t.graph_model.delete_graph()
+    except Exception:
+        pass
+
+
 def name_paths(I, cls, s):
     c = I.classes[cls]
 
@@ -562,21 +735,30 @@ def name_paths(I, cls, s):
     if cls == "NodeSliver":
         def add_node():
             t = fu.ExperimentTopology()
-            return t.add_node(name=s, site="S").get_property("name")
+            try:
+                return t.add_node(name=s, site="S").get_property("name")
+            finally:
+                _drop(t)
 
         def rename():
             t = fu.ExperimentTopology()
-            n = t.add_node(name="n0", site="S")
-            n.name = s
-            return n.get_property("name")
+            try:
+                n = t.add_node(name="n0", site="S")
+                n.name = s
+                return n.get_property("name")
+            finally:
+                _drop(t)
         out.update({"add_node": add_node, "assign_name": rename,
                     "decode": lambda: G.node_sliver_from_graph_properties_dict({G.PROP_NAME: s, G.PROP_TYPE: "VM"}).resource_name})
     if cls == "ComponentSliver":
         def add_comp(mt):
             def f():
                 t = fu.ExperimentTopology()
-                n = t.add_node(name="n0", site="S")
-                return n.add_component(name=s, model_type=mt).get_property("name")
+                try:
+                    n = t.add_node(name="n0", site="S")
+                    return n.add_component(name=s, model_type=mt).get_property("name")
+                finally:
+                    _drop(t)
             return f
         out["add_component_gpu"] = add_comp(fu.ComponentModelType.GPU_Tesla_T4)
         out["add_component_nic"] = add_comp(fu.ComponentModelType.SharedNIC_ConnectX_6)
@@ -584,7 +766,10 @@ def name_paths(I, cls, s):
     if cls == "NetworkServiceSliver":
         def add_ns():
             t = fu.ExperimentTopology()
-            return t.add_network_service(name=s, nstype=fu.ServiceType.L2Bridge, interfaces=[]).get_property("name")
+            try:
+                return t.add_network_service(name=s, nstype=fu.ServiceType.L2Bridge, interfaces=[]).get_property("name")
+            finally:
+                _drop(t)
         out["add_network_service"] = add_ns
     return out
 
@@ -722,6 +907,296 @@ def check_elem_name(I, kind, s, res):
             I.restore_name(el, orig)
 
 
+
+# ---------------------------------------------------------------- every entry point the translator discovers, probed
+
+def build_val(I, dom, spec):
+    """python value for a JSON-able case spec"""
+    import types
+    base = dom.split(":")[0]
+    if base == "name":
+        return spec["s"]
+    if base == "boot_script":
+        return spec.get("ch", "x") * spec["n"]
+    if base in ("labels", "peer_labels", "label_allocations", "labelsobj"):
+        f, v, form = spec["f"], spec["v"], spec.get("form", "obj")
+        if form == "obj":
+            return I.cl.Labels(**{f: v})
+        return {"dict": {f: v}, "json": json.dumps({f: v}), "ns": types.SimpleNamespace(**{f: v}), "list": [v]}[form]
+    if base == "tags":
+        t, form = spec["s"], spec.get("form", "obj")
+        if form == "obj":
+            return I.tg.Tags(t)
+        return {"list": [t], "str": t, "json": json.dumps([t]), "ns": types.SimpleNamespace(tags=[t]), "tuple": (t,)}[form]
+    if base == "json":
+        if spec.get("form", "obj") == "obj":
+            return getattr(I.jd, dom.split(":")[1])(spec["data"])
+        return spec["data"]
+    if base == "wjson":
+        return getattr(I.jd, dom.split(":")[1])(spec["data"]) if spec.get("form") == "obj" else spec["data"]
+    if base in ("rawjson", "blob"):
+        return spec["data"]
+    if base in ("labelfield", "gatewayfield", "peer_labelfield"):
+        return (spec["f"], spec["v"])
+    if base == "tag":
+        return spec["s"]
+    if base == "gatewayobj":
+        kw = {"ipv4": "10.0.0.1", "ipv4_subnet": "10.0.0.0/24", "mac": spec["mac"]}
+        return I.cl.Labels(**kw) if spec.get("form", "obj") == "obj" else types.SimpleNamespace(ipv6=None, ipv6_subnet=None, **kw)
+    raise core.Infra("no value builder for domain " + dom)
+
+
+def spec_inside(I, dom, spec, own):
+    """is the value inside the documented domain (independent recognisers of lib_c16)? None = the form itself is not a
+    value of the parameter's type (a raw dict where a Labels object is expected): must not end up stored"""
+    base = dom.split(":")[0]
+    if base == "name":
+        return L.NAME_DOMAIN[own](spec["s"])
+    if base == "boot_script":
+        return spec["n"] < L.BOOT_LIMIT
+    if base in ("labels", "peer_labels", "label_allocations", "labelsobj", "labelfield", "gatewayfield", "peer_labelfield"):
+        f, v = spec["f"], spec["v"]
+        d = L.LABEL_DOMAIN.get(f)
+        ok = True if d is None else (all(isinstance(x, str) and d(x) for x in v) if isinstance(v, list) else d(v))
+        if base in ("labelfield", "gatewayfield", "peer_labelfield"):
+            return ok
+        return ok if spec.get("form", "obj") == "obj" else None
+    if base == "tags":
+        return L.tag_ok(spec["s"]) if spec.get("form", "obj") == "obj" else None
+    if base == "tag":
+        return L.tag_ok(spec["s"])
+    if base in ("json", "rawjson", "blob", "wjson"):
+        m = L.JSON_MAX[dom.split(":")[1]]
+        data = spec["data"]
+        ok = (len(data) <= m and json_facts(data)) if isinstance(data, str) else (dumps_facts(data)[0] and dumps_facts(data)[1] <= m)
+        if base == "json" and spec.get("form", "obj") != "obj":
+            return None
+        return ok
+    if base == "gatewayobj":
+        return L.mac(spec["mac"]) if spec.get("form", "obj") == "obj" else None
+    raise core.Infra("no oracle for domain " + dom)
+
+
+def stored_of(I, res_obj, dom, spec):
+    """what the store now holds for this domain, in a comparable form, and what the accepted value should look like there"""
+    from fim.user.model_element import ModelElement
+    from fim.slivers.base_sliver import BaseSliver
+    base = dom.split(":")[0]
+    key = EP.store_key(dom)
+    if isinstance(res_obj, tuple) and res_obj[0] == "handle":
+        return ("handle", I.raw_name(res_obj[2]))
+    if isinstance(res_obj, ModelElement):
+        raw = I.raw_props(res_obj).get(EP.GRAPH_PROP[key])
+    elif isinstance(res_obj, BaseSliver):
+        raw = getattr(res_obj, EP.SLIVER_FIELD[key])
+        if raw is not None and base != "name" and base != "boot_script":
+            raw = raw.to_json() if hasattr(raw, "to_json") else raw.json
+    elif res_obj is None:
+        raw = None
+    elif hasattr(res_obj, "to_json"):
+        raw = res_obj.to_json()
+    elif hasattr(res_obj, "json"):
+        raw = res_obj.json
+    else:
+        raw = res_obj
+    return raw
+
+
+def holds(dom, spec, raw):
+    """does the stored text/value `raw` carry the case's value?"""
+    base = dom.split(":")[0]
+    if raw is None:
+        return False
+    try:
+        if base == "name":
+            return raw == spec["s"]
+        if base == "boot_script":
+            return raw == spec.get("ch", "x") * spec["n"]
+        if raw == "":
+            return False
+        if base in ("labels", "peer_labels", "label_allocations", "labelsobj", "labelfield", "gatewayfield", "peer_labelfield"):
+            d = json.loads(raw)
+            return isinstance(d, dict) and d.get(spec["f"]) == spec["v"]
+        if base in ("tags", "tag"):
+            d = json.loads(raw)
+            return isinstance(d, list) and spec["s"] in d
+        if base in ("json", "rawjson", "blob", "wjson"):
+            data = spec["data"]
+            return raw == data if isinstance(data, str) else json.loads(raw) == json.loads(json.dumps(data))
+        if base == "gatewayobj":
+            return json.loads(raw).get("mac") == spec["mac"]
+    except (ValueError, TypeError):
+        return False
+    return False
+
+
+def still_readable(I, res_obj, dom):
+    from fim.user.model_element import ModelElement
+    from fim.slivers.base_sliver import BaseSliver
+    from fim.graph.abc_property_graph import ABCPropertyGraph as G
+    if isinstance(res_obj, ModelElement):
+        res_obj.get_sliver()
+        res_obj.get_property("name")
+        return True
+    if isinstance(res_obj, BaseSliver):
+        d = G.base_sliver_to_graph_properties_dict(res_obj)
+        if res_obj.resource_name is None:
+            d["Name"] = "ab"
+        s2 = type(res_obj)()
+        G.set_base_sliver_properties_from_graph_properties_dict(s2, {k: v for k, v in d.items() if k != "Type"})
+        return True
+    if isinstance(res_obj, I.cl.Labels):
+        return I.cl.Labels.from_json(res_obj.to_json()) == res_obj or res_obj.to_json() == ""
+    if isinstance(res_obj, I.tg.Tags):
+        return I.tg.Tags.from_json(res_obj.to_json()).tags == res_obj.tags
+    if isinstance(res_obj, I.jd.JSONData):
+        return type(res_obj)(res_obj.json).json == res_obj.json
+    return True
+
+
+def anywhere_in_graph(c, dom, spec):
+    """after a rejection: no element of the scratch topology carries the value"""
+    prop = EP.GRAPH_PROP.get(EP.store_key(dom))
+    if prop is None:
+        return False
+    return any(holds(dom, spec, p.get(prop)) for p in c.all_props())
+
+
+def check_entry(I, entry, variant, own, dom, spec, res):
+    pr = EP.PROBES[entry]
+    if EP.overridden(entry, dom, spec):
+        return
+    inside = spec_inside(I, dom, spec, own)
+    case = {"kind": "entry", "entry": entry, "variant": variant, "own": own, "dom": dom, "spec": spec}
+    sig = "C16:entry.%s%s.%s" % (entry, "[%s]" % variant if variant else "", dom)
+    try:
+        val = build_val(I, dom, spec)
+    except Exception:
+        return                    # the value cannot even be built as the parameter's type (the constructor rejected it): nothing to hand over
+    c = EP.C(I)
+    try:
+        _check_entry(I, c, pr, entry, variant, own, dom, spec, val, inside, case, sig, res)
+    finally:
+        c.close()
+
+
+def _check_entry(I, c, pr, entry, variant, own, dom, spec, val, inside, case, sig, res):
+    ok, obj, ek = _accepts(lambda: pr.run(c, variant, dom, val))
+    res.evaluations += 1
+    res.count("entry:%s:%s" % (dom.split(":")[0], "accept" if ok else "reject"))
+    if ok:
+        raw = stored_of(I, obj, dom, spec)
+        if isinstance(raw, tuple):      # a handle: nothing may have been written
+            return
+        has = holds(dom, spec, raw)
+        if inside is True and not has:
+            res.violation(sig + ":stored-differs", "%s accepted a value but the store does not hold it as given" % entry, case,
+                          expected="stored as given", observed=repr(raw)[:120])
+        elif inside is not True and has:
+            what = L.classify(spec["s"], L.NAME_DOMAIN[own]) if dom == "name" else ("outside-domain" if inside is False else "wrong-type")
+            res.violation(sig + ":" + what + "-stored", "%s stores a value outside its documented domain" % entry, case,
+                          expected="rejected", observed="stored %r" % (raw,))
+        if has:
+            ok2, _, ek2 = _accepts(lambda: still_readable(I, obj, dom))
+            if not ok2:
+                res.violation(sig + ":unreadable-after-store", "after %s accepted a value the element cannot be decoded again" % entry, case,
+                              expected="readable", observed=ek2)
+    else:
+        if inside is True:
+            if dom == "name" and not EP.derived_ok(entry, variant, spec["s"]):
+                res.violation("C16:name.%s:%s:rejects-member-derived-name" % (own, entry),
+                              "a name of the element's own pattern is rejected because a name derived from it must match another class's pattern",
+                              case, expected="accepted", observed=ek)
+            else:
+                res.violation(sig + ":rejects-member", "%s rejects a value inside its documented domain" % entry, case,
+                              expected="accepted", observed=ek)
+        if c.el is not None and dom == "name" and c.el.name != I.raw_name(c.el):
+            res.violation("C16:entry.%s.name:handle-keeps-rejected-name" % entry,
+                          "%s raised, the graph keeps the old name, but the element object now answers with the rejected name" % entry, case,
+                          expected=I.raw_name(c.el), observed=c.el.name)
+        if anywhere_in_graph(c, dom, spec):
+            res.violation(sig + ":rejected-but-stored", "%s raised, but an element of the topology carries the value" % entry, case,
+                          observed=ek)
+
+
+LBL_PROBE_FIELDS = ("vlan", "mac", "ipv4", "bdf", "numa", "asn", "vlan_range", "ipv6_subnet", "usb_id", "local_name")
+
+
+def entry_specs(I, dom, own, rng, n):
+    """members and non-members for one domain (deterministic corner cases first)"""
+    base = dom.split(":")[0]
+    out = []
+    if base == "name":
+        return [{"s": s} for s in L.name_candidates(own, rng, max(n, 23))]
+    if base == "boot_script":
+        return [{"n": k, "ch": ch} for k in (0, 1, 1023, 1024, 1025, 3000) for ch in ("x", "é")][:max(6, n)]
+    if base in ("labels", "peer_labels", "label_allocations", "labelsobj"):
+        for f in rng.sample(LBL_PROBE_FIELDS, 4) + ["vlan"]:
+            cands = [good_example(f)] + L.candidates(f, rng, 30)
+            good = [s for s in cands if L.LABEL_DOMAIN.get(f) is None or L.LABEL_DOMAIN[f](s)]
+            bad = [s for s in cands if L.LABEL_DOMAIN.get(f) is not None and not L.LABEL_DOMAIN[f](s)]
+            for s in good[:2]:
+                out.append({"f": f, "v": s, "form": "obj"})
+                out.append({"f": f, "v": [good_example(f), s], "form": "obj"})
+            for s in bad[:3]:
+                for form in ("dict", "json", "ns", "list"):
+                    out.append({"f": f, "v": s, "form": form})
+        return out[:max(n, 12)]
+    if base == "tags":
+        cands = L.tag_candidates(rng, 30)
+        good = [s for s in cands if L.tag_ok(s)]
+        bad = [s for s in cands if not L.tag_ok(s)]
+        for s in good[:3]:
+            out.append({"s": s, "form": "obj"})
+        for s in bad[:4]:
+            for form in ("list", "str", "json", "ns", "tuple"):
+                out.append({"s": s, "form": form})
+        return out[:max(n, 10)]
+    if base in ("json", "rawjson", "blob", "wjson"):
+        m = L.JSON_MAX[dom.split(":")[1]]
+        datas = [{"a": 1}, ["a" * (m - 4)], ["a" * (m - 3)], '"' + "a" * (m - 2) + '"', '"' + "a" * (m - 1) + '"', "nope", "{}", [], "é" * 10,
+                 ["é" * ((m - 4) // 6)], ["é" * ((m - 4) // 6 + 1)], {"k": [1, 2, {"z": None}]}]
+        for dta in datas:
+            if base in ("json", "wjson"):
+                out.append({"data": dta, "form": "obj"})
+                out.append({"data": dta, "form": "raw"})
+            else:
+                out.append({"data": dta})
+        return out
+    if base in ("labelfield", "gatewayfield", "peer_labelfield"):
+        fields = ("ipv4", "ipv4_subnet", "mac", "ipv6", "ipv6_subnet") if base == "gatewayfield" else rng.sample(LBL_PROBE_FIELDS, 4) + ["vlan"]
+        for f in fields:
+            for s in [good_example(f)] + L.candidates(f, rng, max(6, n // 3)):
+                out.append({"f": f, "v": s})
+                if base != "gatewayfield":
+                    g = good_example(f)
+                    out.append({"f": f, "v": rng.choice([[s], [g, s], [s, g], [g, g, s]])})
+        return out
+    if base == "tag":
+        return [{"s": s} for s in L.tag_candidates(rng, max(n, 19))]
+    if base == "gatewayobj":
+        for m in ["00:11:22:33:44:55", "aa:BB:cc:DD:ee:FF"]:
+            out.append({"mac": m, "form": "obj"})
+        for m in ["00:11:22:33:44:55\n", "zz", "00-11-22-33-44-55", ""]:
+            out.append({"mac": m, "form": "ns"})
+        return out
+    raise core.Infra("no case generator for " + dom)
+
+
+def entry_points_oracle(ctx, I, res, scale=1):
+    rng = ctx.sub_rng("entries")
+    n = ctx.scale(8, 40) * scale
+    for entry in sorted(EP.PROBES):
+        pr = EP.PROBES[entry]
+        for variant, own in pr.variants:
+            for dom in pr.domains:
+                if not EP.applicable(entry, variant, dom):
+                    continue
+                for spec in entry_specs(I, dom, own or "NodeSliver", rng, n):
+                    res.nontrivial.add(canon([entry, variant, dom, spec])[:300])
+                    check_entry(I, entry, variant, own or "NodeSliver", dom, spec, res)
+        res.count("entry-point:" + entry)
+
 ELEM_ATTRS = ("tags", "boot_script", "user_data", "mf_data", "layout_data", "labels")
 
 
@@ -775,7 +1250,13 @@ def check_elem_attr(I, kind, attr, raw, res):
 
 def run_oracle_case(I, c, res):
     k = c["kind"]
-    if k == "ename":
+    if k == "ltype":
+        check_label_types(I, res, [c["field"]])
+    elif k == "lkey":
+        check_label_keys(I, res)
+    elif k == "entry":
+        check_entry(I, c["entry"], c["variant"], c["own"], c["dom"], c["spec"], res)
+    elif k == "ename":
         check_elem_name(I, c["elem"], c["s"], res)
     elif k == "eattr":
         check_elem_attr(I, c["elem"], c["attr"], tuple(c["raw"]) if c["attr"] == "labels" else c["raw"], res)
@@ -839,6 +1320,9 @@ def oracle(ctx, res, scale=1):
             cands = L.candidates(f, rng, 40)
             for s in [good_example(f)] + rng.sample(cands, max(6, m // 6)):
                 check_elem_attr(I, knd, "labels", (f, s), res)
+    entry_points_oracle(ctx, I, res, scale)
+    check_label_types(I, res, ["vlan", "mac", "numa", "asn", "local_name", "device_name", "instance", "ipv6"] + rng.sample(I.fields, 3))
+    check_label_keys(I, res)
     for r in size_cases(rng):
         if r[0] == "boot" and (r[1] is None or isinstance(r[1], str)):
             check_boot(I, r[1], res)
